@@ -385,6 +385,12 @@ def _trackback_rules(ck, m, fn):
     loops = [n for n in walk_body(fn) if isinstance(n, ast.For) and isinstance(n.iter, ast.Call) and norm(n.iter.func) == "reversed"]
     ck.need(loops, "IRCFG.dst_trackback: loop over the reversed assignment blocks not found")
     lp = loops[0]
+    # ... over ALL the assignment blocks of the block: the leaves of IRDst are collected inside this loop, so a slice that can be
+    # empty (IRDst set by the first assignment block) loses every edge of the block
+    blkp = fn.args.args[1].arg
+    whole = len(lp.iter.args) == 1 and norm(res.expand_node(lp.iter.args[0])) in (blkp, "%s.assignblks" % blkp, "list(%s)" % blkp, "list(%s.assignblks)" % blkp)
+    ck.ob("R3", "IRCFG.dst_trackback:walks-every-assignblk", whole, m.where(lp),
+          "the backward walk iterates over `%s`, not over all the assignment blocks of the block" % norm(lp.iter))
     blk = norm(lp.target)
     calls = [st for st in lp.body if isinstance(st, ast.Assign) and isinstance(st.value, ast.Call) and dotted(st.value.func) == "self._extract_dst"]
     ck.need(calls and isinstance(calls[0].targets[0], ast.Name), "IRCFG.dst_trackback: call of _extract_dst not found")
